@@ -37,7 +37,7 @@ pub fn check(tier: Tier) -> Check {
         also_rel: true,
         property: "C04",
         level: "fault_enumeration",
-        rule: "phases {connect(), authorize(), run() idle, run() with one operation of every kind outstanding and a live stream} x inputs {(1) all byte strings up to the stated length over an 18-symbol boundary alphabet (0x00 0x01 0x02 0x03 0x7f 0x80 0xff and one fixed-header byte per server packet type), optionally followed by end-of-stream (strings whose length field announces more than 4 MiB, which the client allocates and zeroes, are delivered by the other input classes instead); all 65536 two-byte prefixes x three tails; (2) for a valid exemplar of every server packet type carrying every property: every truncation, every single-bit flip, every byte replaced by 0x00/0x01/0x7f/0x80/0xff, remaining length set to 0 / +-1 / maximum / over-long / non-minimal, every property spliced into every packet type, every reason byte 0..=255; (3) every packet type at every phase (well-formed, for known and unknown identifiers); (4) end-of-stream and read error at every byte offset in whole-packet and 1-byte chunking, write error (or Ok(0)) at every write, a transient read error at every byte offset followed by the rest of the input - each for six io::ErrorKinds (ConnectionReset, WouldBlock, Interrupted, UnexpectedEof, TimedOut, Other); (5) from a session with three subscriptions (streams taken / response kept), a ping, QoS 1 and QoS 2 publishes in every phase outstanding and an unreleased inbound QoS 2 identifier: every bounded continuation by conformant events (streams and responses dropped, operations cancelled, acknowledgements, messages), followed by one or two packets from a menu of every acknowledgement type for every known and an unknown identifier, SUBACK / UNSUBACK for publish identifiers and vice versa, PUBLISH with every QoS and subscription-identifier lists naming live, dropped and unknown subscriptions in several orders, unsolicited PINGRESP / PUBREL / AUTH / CONNACK / DISCONNECT; (6) a long PUBLISH trickled in always-ready 1-byte reads in a child process}; both the overflow-checked and the wrapping-arithmetic build; non-trivial = the input made a call return an error".into(),
+        rule: "phases {connect(), authorize(), run() idle, run() with one operation of every kind outstanding and a live stream} x inputs {(1) all byte strings up to the stated length over an 18-symbol boundary alphabet (0x00 0x01 0x02 0x03 0x7f 0x80 0xff and one fixed-header byte per server packet type), optionally followed by end-of-stream (strings whose length field announces more than 4 MiB, which the client allocates and zeroes, are delivered by the other input classes instead); all 65536 two-byte prefixes x three tails; (2) for a valid exemplar of every server packet type carrying every property: every truncation, every single-bit flip, every byte replaced by 0x00/0x01/0x7f/0x80/0xff, remaining length set to 0 / +-1 / maximum / over-long / non-minimal, every property spliced into every packet type, every reason byte 0..=255; (3) every packet type at every phase (well-formed, for known and unknown identifiers); (4) end-of-stream and read error at every byte offset in whole-packet and 1-byte chunking, write error (or Ok(0)) at every write, a transient read error at every byte offset followed by the rest of the input - each for six io::ErrorKinds (ConnectionReset, WouldBlock, Interrupted, UnexpectedEof, TimedOut, Other); (5) from a session with three subscriptions (streams taken / response kept), a ping, QoS 1 and QoS 2 publishes in every phase outstanding and an unreleased inbound QoS 2 identifier: every bounded continuation by conformant events (streams and responses dropped, operations cancelled, acknowledgements, messages), followed by one or two packets from a menu of every acknowledgement type for every known and an unknown identifier, SUBACK / UNSUBACK for publish identifiers and vice versa, PUBLISH with every QoS and subscription-identifier lists naming live, dropped and unknown subscriptions in several orders, unsolicited PINGRESP / PUBREL / AUTH / CONNACK / DISCONNECT; (6) a long PUBLISH trickled in always-ready 1-byte reads in a child process}; both the overflow-checked and the wrapping-arithmetic build; the C17 resume machine with a smaller Receive Maximum on the second connection (C04/resume); bursts of up to 8193 (thorough 65537) well-formed packets (C04/burst); every error printed, reason strings with multi-byte characters at every alignment (C04/utf8-align); non-trivial = the input made a call return an error".into(),
         assumptions: vec![
             "the documented assertion on brokers without subscription identifier support is exempt".into(),
             "which error is returned is unconstrained".into(),
